@@ -601,6 +601,29 @@ C04_MissingTopologyNotPlaced ==
   \A i \in Dec : IsPlacement(i) =>
      LET j == JobOf(D[i].p) IN ("topo" \in DOMAIN J(j) /\ J(j).topo # "") => (HasTopo /\ J(j).topo = scen.topo.name)
 
+\* Sub-group level constraints (subs[k].topoReq, same topology object): the pods of a constrained sub-group
+\* - for a parent sub-group, of all its descendants - placed in this cycle, together with those that stay
+\* active, lie in one domain at the sub-group's level and all coarser levels, on nodes carrying the labels.
+SubTopoReq(j, k) == IF "topoReq" \in DOMAIN J(j).subs[k] THEN J(j).subs[k].topoReq ELSE 0
+SubConstrained(j, k) == HasTopo /\ SubTopoReq(j, k) >= 1 /\ SubTopoReq(j, k) <= Len(scen.topo.levels)
+RECURSIVE SubUnder(_, _, _)
+SubUnder(j, k, a) == \* sub-group k of job j is sub-group a or one of its descendants
+  \/ k = a
+  \/ /\ J(j).subs[k].parent # ""
+     /\ \E m \in 1..Len(J(j).subs) : m # k /\ J(j).subs[m].name = J(j).subs[k].parent /\ SubUnder(j, m, a)
+SubPods(j, a) == {p \in PodsOf(j) : P(p).sub # 0 /\ P(p).sub <= Len(J(j).subs) /\ SubUnder(j, P(p).sub, a)}
+SubNodes(j, a) == {FinalNode(p) : p \in SubPods(j, a)} \ {0}
+SubPlacedThisCycle(j, a) == \E i \in Dec : IsPlacement(i) /\ (BindAny(i) => D[i].ok = 1) /\ D[i].p \in SubPods(j, a)
+C04_SubTopologyLabels ==
+  \A i \in Dec : IsPlacement(i) =>
+     LET j == JobOf(D[i].p) IN
+       \A a \in 1..Len(J(j).subs) : (SubConstrained(j, a) /\ D[i].p \in SubPods(j, a)) => (D[i].n \in Nodes /\ HasAllTopoLabels(D[i].n))
+C04_SubTopologyOneDomain ==
+  (Quiet /\ ~failed) => \A j \in Jobs : \A a \in 1..Len(J(j).subs) :
+     (SubConstrained(j, a) /\ SubPlacedThisCycle(j, a)) =>
+        \A x, y \in SubNodes(j, a) : \A k \in 1..SubTopoReq(j, a) :
+           NodeLabel(x, scen.topo.levels[k]) = NodeLabel(y, scen.topo.levels[k])
+
 (***************************************************************************)
 (* C09 on real sessions: at every level of the queue tree the children's    *)
 (* fair shares (GPU) obey the division contract with total := the parent's  *)
